@@ -1359,6 +1359,13 @@ def should_run_witnesses():
     add("no inputs", {}, {"/p/out": 2})
     add("spec changed, files up to date", {"/p/in": 1}, {"/p/out": 2}, spec=True)
     add("spec changed, no outputs", {}, {}, spec=True)
+    # the decision is about the files' time stamps relative to each other, never relative to the local clock (a file server whose clock runs ahead, or files dated 1970)
+    from ..symeval import CLOCK as _now
+    add("both files stamped ahead of the local clock (file server runs fast), output newer", {"/p/in": _now + 500.0}, {"/p/out": _now + 600.0})
+    add("both files stamped ahead of the local clock, input newer", {"/p/in": _now + 600.0}, {"/p/out": _now + 500.0})
+    add("output stamped ahead of the local clock, input just written", {"/p/in": _now - 1.0}, {"/p/out": _now + 600.0})
+    add("files dated at the epoch (reproducible archive), output newer", {"/p/in": 0.0}, {"/p/out": 0.5})
+    add("files dated at the epoch, tie", {"/p/in": 0.0}, {"/p/out": 0.0})
     for order in ((1, 5, 9), (9, 5, 1), (5, 9, 1), (5, 1, 9)):
         add(f"three outputs {order}, input at 3 (older than some, newer than the oldest)", {"/p/in": 3}, {f"/p/o{i}": t for i, t in enumerate(order)})
         add(f"three inputs {order}, output at 7 (newer than some, older than the newest)", {f"/p/i{i}": t for i, t in enumerate(order)}, {"/p/out": 7})
